@@ -39,8 +39,11 @@ def run(ctx, selftest=False):
         if not (g["N"] == 1 and g["poly"] == 1 and g["noff"] == 0):
             ctx.nontrivial(str(sorted(g.items())) + str(c["nlinear"]))
     ctx.sample(traces[0]); ctx.sample(traces[-1])
-    verdicts = ctx.validate("GaussTrace", traces, timeout=3000)
-    ctx.judge(traces, verdicts, families=FAMILIES)
+    otr = [gd.oracle_trace(c) for c in cases[:: (4 if quick else 1)]]
+    ctx.notes["oracle_validated_on_lattice_configurations"] = len(otr)
+    gd.offlattice(ctx, "C03", 60 if quick else 1500, [("dev_mean", "OffLatticePosteriorMean"), ("dev_cov", "OffLatticePosteriorCovariance")])
+    verdicts = ctx.validate("GaussTrace", traces + otr, timeout=3000)
+    ctx.judge(traces + otr, verdicts, families=FAMILIES + ("H.",))
     if selftest or not quick:
         import copy
         muts = []
